@@ -857,79 +857,11 @@ example : Coerce.toBool (.int .i8 (-2)) = .ok true ∧ Coerce.toBool (.f64 (.fin
     Coerce.toBool (.f32 .ninf) = .ok true ∧ Coerce.toBool (.str { seven with norm := "yes" }) = .ok true ∧
     Coerce.toBool (.str seven) = .error .format := by decide
 
-/-! ## coercing schemas -/
-
-/-- **C17 (schemas, order).** Coercion is attempted only after the exact type match fails: an
-    input that already has the schema's type is validated as it is. -/
-theorem c17_schema_exact_first (f g : F → List Nat) (t : Tgt) (c : Chk) (s : Src) (v : Val)
-    (h : exact t s = some v) : parseCoerced f g t c s = parsePlain t c v := by
-  simp [parseCoerced, h]
-
-/-- **C17 (schemas).** Otherwise the coercing schema validates the coerced value exactly as the
-    non-coercing schema validates that value, and a failed coercion is an error. -/
-theorem c17_schema (f g : F → List Nat) (t : Tgt) (c : Chk) (s : Src) (h : exact t s = none) :
-    parseCoerced f g t c s = afterCoerce t c (to f g t s) := by
-  unfold parseCoerced; rw [h]
+/-! ## coercing schemas: `Proofs/C17Schema.lean` (over `Model/CoerceSchema.lean`, round 4c) -/
 
 theorem to_int (f g : F → List Nat) (ty : IntTy) (s : Src) :
     to f g (.int ty) s = Val.int <$> toInteger ty s := by
   cases ty <;> first | rfl | (rw [c17_integer_i64_eq]; rfl)
-
-/-- Schemas inherit the helpers' guarantee: what a coercing integer schema returns for an input
-    of another type is exactly the integer the input denotes, within the type's range, and it
-    satisfies the schema's check. -/
-theorem c17_schema_int_sound (sem : StrSem) (f g : F → List Nat) (ty : IntTy) (c : Chk) (s : Src)
-    (w : Val) (hwf : wf s) (hex : exact (.int ty) s = none)
-    (h : parseCoerced f g (.int ty) c s = .ok w) :
-    ∃ n, w = .int n ∧ denotesInt sem s n ∧ ty.inRange n ∧ c.holds (.int ty) (.int n) = true := by
-  rw [c17_schema f g _ c s hex, to_int] at h
-  cases hi : toInteger ty s with
-  | error e => rw [hi] at h; cases h
-  | ok n =>
-    rw [hi] at h
-    have ⟨hd, hr⟩ := c17_integer_sound sem ty s n hwf hi
-    simp only [Functor.map, Except.map, afterCoerce, parsePlain] at h
-    split at h
-    · rename_i hc
-      injection h with h; subst h
-      exact ⟨n, rfl, hd, hr, hc⟩
-    · cases h
-
-example : Coerce.exact (.int .i8) (.str seven) = none ∧
-    parseCoerced (fun _ => []) (fun _ => []) (.int .i8) (.cmp .gte (.i 5)) (.str seven) = .ok (.int 7) ∧
-    parseCoerced (fun _ => []) (fun _ => []) (.int .i8) (.cmp .gt (.i 7)) (.str seven) = .error .check := by
-  refine ⟨rfl, ?_, ?_⟩ <;> decide
-
-/-- **C17 (schemas, every target).** Whatever a coercing schema returns for an input that is not
-    already of its type is the value `coerce.To[T]` produced for that input — nothing is changed
-    between coercion and validation — and that value satisfies the schema's check; if the
-    coercion fails, or the check fails on the coerced value, the schema fails. -/
-theorem c17_schema_sound (f g : F → List Nat) (t : Tgt) (c : Chk) (s : Src) (w : Val)
-    (hex : exact t s = none) :
-    parseCoerced f g t c s = .ok w ↔ (to f g t s = .ok w ∧ c.holds t w = true) := by
-  rw [c17_schema f g t c s hex]
-  cases hto : to f g t s with
-  | error e => simp [afterCoerce]
-  | ok v =>
-    simp only [afterCoerce, parsePlain]
-    by_cases hc : c.holds t v = true
-    · rw [if_pos hc]
-      constructor
-      · intro h; injection h with h; subst h; exact ⟨rfl, hc⟩
-      · intro ⟨h, _⟩; injection h with h; subst h; rfl
-    · rw [if_neg hc]
-      constructor
-      · intro h; cases h
-      · intro ⟨h, hw⟩; injection h with h; subst h; exact absurd hw hc
-
-/-- The bound check a coercing integer schema applies to the coerced value is the mathematical
-    comparison (C16's `c16_cmp`), so "validates the coerced value exactly as the non-coercing
-    schema" composes with C16: the verdict is `n op b` on the integers themselves. -/
-theorem c17_schema_check_exact (ty : IntTy) (op : CmpOp) (b n : Int) (hn : ty.inRange n)
-    (hb : IntTy.i64.inRange b) :
-    (Chk.cmp op (Num.ofInt .i64 b)).holds (.int ty) (.int n) = op.holdsInt n b := by
-  simp only [Chk.holds, Val.num]
-  exact C16.c16_int_cmp op ty .i64 n b hn hb
 
 /-- Integer sources into integer targets: the conversion succeeds exactly when the value is in
     the target's range — except that `uint`/`uint64` values above MaxInt64 always fail (the
